@@ -192,6 +192,10 @@ def shard(ctx):
             k += 1
             if ctx.mine(k):
                 run_case(ctx, {"input": s, "frag": frag, "container": cont})
+    from .. import gen as _g
+    for q in _g.token_sequences(ctx, 3, 3, 0.4, suffix=" \n x  "):
+        run_case(ctx, {"input": q, "frag": False, "container": None})
+        ctx.count("sequence_cases")
     n, idx = 0, ctx.i
     limit = (100000 if ctx.tier == "quick" else 3000000) // ctx.n
     t_end = time.time() + ctx.time_left()
@@ -218,6 +222,8 @@ def replay(ctx, case):
 
 
 def finalize(m, v):
+    from .. import gen as _gen
+    _gen.sequences_inconclusive(m)
     c = m["counters"]
     if c.get("runs_spanning_2plus_tokens", 0) < 1000:
         m["inconclusive"].append("fewer than 1000 text runs spanning >= 2 tokens")
